@@ -1,6 +1,11 @@
 package mobius
 
-import "io"
+import (
+	"io"
+	"sync"
+
+	"github.com/jhalter/mobius/hotline"
+)
 
 // A reader client = the steps HandleGetMsgs / the login path perform on the shared store: Seek(0,0), then Read
 // calls until io.EOF. Each step is atomic in the real code (Read holds the store's mutex, Seek is one assignment);
@@ -88,4 +93,51 @@ func VH_C19_PostsKeptNewestFirst_sym() {
 		r.step(f)
 	}
 	vAssertEqBytes("reader_after_posts", r.got, want)
+}
+
+// Engine-only replacement of sync.Mutex.Lock: before the lock is granted another client may complete a whole
+// operation. The hook (set by a harness, cleared when it fires) plays that other client.
+var vLockHook func()
+
+func vStub_sync_Mutex_Lock(m *sync.Mutex) {
+	if vLockHook != nil {
+		h := vLockHook
+		vLockHook = nil
+		h()
+	}
+}
+
+// Two posts made at the same time are both kept: whatever another poster completes just before this post obtains
+// the store's lock must still be in the board afterwards (the read-modify-write happens inside the lock).
+func VH_C19_ConcurrentPostsBothKept_sym() {
+	vfsReset()
+	old := vBytes("old", 200)
+	vfs.put("/cfg/MessageBoard.txt", old)
+	f := &FlatNews{data: append([]byte(nil), old...), filePath: "/cfg/MessageBoard.txt"}
+	other := vBytes("other_post", 50)
+	mine := vBytes("my_post", 50)
+	vLockHook = func() {
+		// the other poster's complete Write: prepend, save
+		f.data = append(append([]byte(nil), other...), f.data...)
+		vfs.put("/cfg/MessageBoard.txt", f.data)
+	}
+	_, err := f.Write(mine)
+	vAssert("post_ok", err == nil)
+	want := append(append(append([]byte(nil), mine...), other...), old...)
+	vAssertEqBytes("both_posts_kept_in_memory", f.data, want)
+	i := vfs.find("/cfg/MessageBoard.txt")
+	vAssert("file_exists", i >= 0)
+	vAssertEqBytes("both_posts_kept_on_disk", vfs.data[i], want)
+}
+
+// get-messages serves the complete board for every board size up to the field limit
+func VH_C19_GetMsgsServesWholeBoard() {
+	srv, cc := vNewServer()
+	cc.Account.Access = hotline.AccessBitmap{0xff, 0xff, 0xff, 0xff, 0xff, 0xff, 0xff, 0xff}
+	text := vBytes("text", 65535)
+	srv.MessageBoard = &FlatNews{data: text, readOffset: vInt("stale_cursor")}
+	t := hotline.NewTransaction(hotline.TranGetMsgs, cc.ID)
+	res := HandleGetMsgs(cc, &t)
+	vAssert("answered", len(res) == 1 && res[0].IsReply == 1 && len(res[0].Fields) == 1)
+	vAssertEqBytes("board_served_whole", res[0].Fields[0].Data, text)
 }
